@@ -361,8 +361,8 @@ class Circuit(object):
             if you included IfUnused.
         """
 
-        # we're already closed; nothing to do
-        if self.state == 'CLOSED':
+        # we're already closed (or failed); nothing to do
+        if self.state in ('CLOSED', 'FAILED'):
             return defer.succeed(None)
 
         # someone already called close() but we're not closed yet
